@@ -226,7 +226,7 @@ func (r *realRemote) send(b []byte, chunks ...int) {
 	}
 }
 
-func (r *realRemote) reach(st int, ras uint32, hold uint16, t *StimTranscript) bool {
+func (r *realRemote) reach(st int, ras uint32, hold uint16, t *StimTranscript, extra ...wire.Cap) bool {
 	m, ok := r.expect(wire.TypeOpen)
 	if !ok {
 		return false
@@ -235,7 +235,7 @@ func (r *realRemote) reach(st int, ras uint32, hold uint16, t *StimTranscript) b
 	if st == stOpenSent {
 		return true
 	}
-	r.send(wire.Open(ras, hold, 0x0a000002))
+	r.send(wire.Open(ras, hold, 0x0a000002, extra...))
 	if _, ok := r.expect(wire.TypeKeepalive); !ok {
 		return false
 	}
@@ -349,9 +349,9 @@ func RealTranscript(cs stimCase) (t StimTranscript) {
 			return t
 		}
 		t.Reached = true
-		r.send(wire.Open(ras, rhold, 0x0a000002))
+		r.send(wire.Open(ras, rhold, 0x0a000002, stimCaps(cs.Cfg)...))
 	} else {
-		if !r.reach(st, ras, rhold, &t) {
+		if !r.reach(st, ras, rhold, &t, stimCaps(cs.Cfg)...) {
 			return t
 		}
 		t.Reached = true
